@@ -12,11 +12,17 @@ import CamVerif.Proofs.C17Kinds2
 import CamVerif.Proofs.C17Resolve
 import CamVerif.Proofs.C17Fuel
 import CamVerif.Proofs.C17Document
+import CamVerif.Proofs.C17Text
+import CamVerif.Proofs.C17Embedded
 set_option linter.unusedSimpArgs false
 set_option linter.unusedSectionVars false
 namespace CamVerif.C17
 open CamVerif CamVerif.XmlParse
 variable {F : Type} [FloatLit F]
+-- the layout of element text into child nodes (`Spec/XmlRender.lean`): every rendering and every
+-- `parse_render_K` / document theorem below holds for EVERY layout whose text children join to
+-- the text: one text node, k ≥ 3 fragments with comments / processing instructions between, …
+variable [TextFrag]
 
 /-- the parser's dispatch (`impl Parse for Vec<NodeData>`) on one element -/
 def parseElem (pr : Profile) (e : Elem) (st : St F) : R (List (NodeData F) × St F) :=
@@ -1238,6 +1244,1164 @@ theorem retrievable_IntSwissKnife_in_Group (pr : Profile) (hdev : pr.debugAssert
   group_member_found pr hdev a b a' b' attrs _ m.attr.name (fun st => .intSwissKnife (specIntSwissKnife m st).1) _
     (parse_render_IntSwissKnife pr m) (fun _ => rfl) (grows_specIntSwissKnife m) hel hsib hmem st stF h
 
+/-! ## declarations at ANY Group depth
+
+`Occurs pr e es`: the element `e` occurs in the element list `es` either directly or inside a
+Group, inside a Group inside a Group, … — with, at every level of the path, sibling elements
+that keep the store (`Good`) and Groups whose children are elements.  Induction on this path
+gives the document-level theorem for every nesting depth. -/
+
+inductive Occurs (pr : Profile) (e : Elem) : List Elem → Prop where
+  | here (a b : List Elem) (hsib : ∀ x, x ∈ a ∨ x ∈ b → Good (F := F) pr x) :
+      Occurs pr e (a ++ e :: b)
+  | inGroup (a b : List Elem) (attrs : List (Str × Str)) (es : List Elem)
+      (hsib : ∀ x, x ∈ a ∨ x ∈ b → Good (F := F) pr x) (hel : AllElems es)
+      (hmem : ∀ x ∈ es, Good (F := F) pr x) (h : Occurs pr e es) :
+      Occurs pr e (a ++ .node cs!"Group" attrs es :: b)
+
+/-- parse level: wherever `e` occurs (any depth) in a successfully parsed sibling list, it was
+parsed in some intermediate state, its nodes are among the nodes the list yields, and the state
+after its parse is kept until the end of the list -/
+theorem occurs_parsed (pr : Profile) (e : Elem) (es : List Elem) (hocc : Occurs (F := F) pr e es) :
+    ∀ (st : St F) (ds : List (NodeData F)) (st' : St F), parseElems pr es st = .ok (ds, st') →
+      ∃ s1 de s2, parseElem pr e s1 = .ok (de, s2) ∧ (∀ d ∈ de, d ∈ ds) ∧ Keeps s2 st' := by
+  induction hocc with
+  | here a b hsib =>
+    intro st ds st' h
+    obtain ⟨da, s1, de, s2, db, _, g2, g3, g4⟩ := parseElems_split pr a b e st ds st' h
+    have k3 := parseElems_keeps pr b (fun x hx => hsib x (Or.inr hx)) _ _ _ g3
+    exact ⟨s1, de, s2, g2, fun d hd => by rw [g4]; simp [hd], k3⟩
+  | inGroup a b attrs es hsib hel hmem _ ih =>
+    intro st ds st' h
+    obtain ⟨da, s1, dg, s2, db, _, g2, g3, g4⟩ := parseElems_split pr a b _ st ds st' h
+    rw [group_flat_members pr attrs es hel s1] at g2
+    obtain ⟨t1, de, t2, i1, i2, i3⟩ := ih s1 dg s2 g2
+    have k3 := parseElems_keeps pr b (fun x hx => hsib x (Or.inr hx)) _ _ _ g3
+    exact ⟨t1, de, t2, i1, fun d hd => by rw [g4]; simp [i2 d hd], i3.trans k3⟩
+
+/-- document level: every node an element at ANY Group depth yields is found under its id in the
+FINAL store exactly as parsed, and the state right after the element's parse is kept to the end -/
+theorem occurs_stored (pr : Profile) (hdev : pr.debugAsserts = true) (e : Elem) (es : List Elem)
+    (hocc : Occurs (F := F) pr e es) (st stF : St F) (h : topLevel pr es st = .ok stF) :
+    ∃ s1 de s2, parseElem pr e s1 = .ok (de, s2) ∧ Keeps s2 stF ∧
+      ∀ d ∈ de, Stored stF d.attr.id d := by
+  cases hocc with
+  | here a b hsib =>
+    -- `e` itself need not be `Good`: split the loop at `e` by hand
+    have hsplit : ∀ (a : List Elem) (st : St F), (∀ x ∈ a, Good (F := F) pr x) →
+        topLevel pr (a ++ e :: b) st = .ok stF →
+        ∃ s1 de s2 s3, parseElem pr e s1 = .ok (de, s2) ∧ storeAllS pr de s2 = .ok s3 ∧
+          topLevel pr b s3 = .ok stF := by
+      intro a
+      induction a with
+      | nil =>
+        intro st _ h
+        simp only [List.nil_append, topLevel] at h
+        cases hp : parseElem pr e st with
+        | ok r =>
+          rw [hp] at h
+          simp only [Res.bind_ok'] at h
+          cases hs : storeAllS pr r.1 r.2 with
+          | ok s3 =>
+            rw [hs] at h
+            exact ⟨st, r.1, r.2, s3, by rw [hp], hs, h⟩
+          | err x => rw [hs] at h; cases h
+          | panic => rw [hs] at h; cases h
+        | err x => rw [hp] at h; cases h
+        | panic => rw [hp] at h; cases h
+      | cons x xs ih =>
+        intro st hg h
+        simp only [List.cons_append, topLevel] at h
+        cases hp : parseElem pr x st with
+        | ok r =>
+          rw [hp] at h
+          simp only [Res.bind_ok'] at h
+          cases hs : storeAllS pr r.1 r.2 with
+          | ok s3 =>
+            rw [hs] at h
+            exact ih s3 (fun y hy => hg y (by simp [hy])) h
+          | err y => rw [hs] at h; cases h
+          | panic => rw [hs] at h; cases h
+        | err y => rw [hp] at h; cases h
+        | panic => rw [hp] at h; cases h
+    obtain ⟨s1, de, s2, s3, g1, g2, g3⟩ := hsplit a st (fun x hx => hsib x (Or.inl hx)) h
+    obtain ⟨k2, f2⟩ := storeAllS_dev pr hdev _ _ _ g2
+    have k3 := topLevel_keeps pr hdev b (fun x hx => hsib x (Or.inr hx)) s3 stF g3
+    exact ⟨s1, de, s2, g1, k2.trans k3, fun d hd => k3.2 _ _ (f2 d hd)⟩
+  | inGroup a b attrs es' hsib hel hmem hin =>
+    have hgood : ∀ x ∈ a ++ .node cs!"Group" attrs es' :: b, Good (F := F) pr x := by
+      intro x hx
+      rcases List.mem_append.mp hx with hx | hx
+      · exact hsib x (Or.inl hx)
+      · rcases List.mem_cons.mp hx with rfl | hx
+        · exact good_Group pr attrs _ hel hmem
+        · exact hsib x (Or.inr hx)
+    obtain ⟨st1, ds, st2, _, h2, _, h4, h5⟩ := document_retrievable pr hdev a b _ hgood st stF h
+    rw [group_flat_members pr attrs es' hel st1] at h2
+    obtain ⟨t1, de, t2, i1, i2, i3⟩ := occurs_parsed pr e es' hin st1 ds st2 h2
+    exact ⟨t1, de, t2, i1, i3.trans h4, fun d hd => h5 d (i2 d hd)⟩
+
+/-- `retrievable_in_nested_Group`: a declaration at ANY Group depth (top level, in a Group, in a
+Group in a Group, …) that yields one node under the id of its `Name`: at the end of the document
+`id_by_name` of the declared name gives that id and `node_opt` of the id gives the node's normal
+form, exactly as parsed. -/
+theorem retrievable_in_nested_Group (pr : Profile) (hdev : pr.debugAsserts = true) (es : List Elem)
+    (e : Elem) (name : Str) (d : St F → NodeData F) (s2 : St F → St F)
+    (hp : ∀ st, parseElem pr e st = .ok ([d st], s2 st))
+    (hid : ∀ st, (d st).attr.id = (internS name st).1)
+    (hg : ∀ st, Grows (internS name st).2 (s2 st))
+    (hocc : Occurs (F := F) pr e es) (st stF : St F) (h : topLevel pr es st = .ok stF) :
+    ∃ s1, findName name stF.names = some (d s1).attr.id ∧ Stored stF (d s1).attr.id (d s1) := by
+  obtain ⟨s1, de, sE, g1, g2, g3⟩ := occurs_stored pr hdev e es hocc st stF h
+  rw [hp s1] at g1
+  simp only [Res.ok.injEq, Prod.mk.injEq] at g1
+  obtain ⟨rfl, rfl⟩ := g1
+  refine ⟨s1, ?_, g3 (d s1) (by simp)⟩
+  rw [hid s1]
+  exact idByName_of_le name s1 stF (St.le_trans (hg s1).1 g2.1)
+
+theorem retrievable_Node_nested (pr : Profile) (hdev : pr.debugAsserts = true) (es : List Elem)
+    (m : NodeM) (hocc : Occurs (F := F) pr m.render es) (st stF : St F)
+    (h : topLevel pr es st = .ok stF) :
+    ∃ s1 : St F, findName m.attr.name stF.names = some (specNode m s1).1.attr.id ∧
+      Stored stF (specNode m s1).1.attr.id (.node (specNode m s1).1) :=
+  retrievable_in_nested_Group pr hdev es _ m.attr.name (fun st => .node (specNode m st).1) _
+    (parse_render_Node pr m) (fun _ => rfl) (grows_specNode m) hocc st stF h
+
+theorem retrievable_Category_nested (pr : Profile) (hdev : pr.debugAsserts = true) (es : List Elem)
+    (m : CategoryM) (hocc : Occurs (F := F) pr m.render es) (st stF : St F)
+    (h : topLevel pr es st = .ok stF) :
+    ∃ s1 : St F, findName m.attr.name stF.names = some (specCategory m s1).1.attr.id ∧
+      Stored stF (specCategory m s1).1.attr.id (.category (specCategory m s1).1) :=
+  retrievable_in_nested_Group pr hdev es _ m.attr.name (fun st => .category (specCategory m st).1) _
+    (parse_render_Category pr m) (fun _ => rfl) (grows_specCategory m) hocc st stF h
+
+theorem retrievable_Integer_nested (pr : Profile) (hdev : pr.debugAsserts = true) (es : List Elem)
+    (m : IntegerM) (hocc : Occurs (F := F) pr m.render es) (st stF : St F)
+    (h : topLevel pr es st = .ok stF) :
+    ∃ s1 : St F, findName m.attr.name stF.names = some (specInteger m s1).1.attr.id ∧
+      Stored stF (specInteger m s1).1.attr.id (.integer (specInteger m s1).1) :=
+  retrievable_in_nested_Group pr hdev es _ m.attr.name (fun st => .integer (specInteger m st).1) _
+    (parse_render_Integer pr m) (fun _ => rfl) (grows_specInteger m) hocc st stF h
+
+theorem retrievable_IntReg_nested (pr : Profile) (hdev : pr.debugAsserts = true) (es : List Elem)
+    (m : IntRegM) (hocc : Occurs (F := F) pr m.render es) (st stF : St F)
+    (h : topLevel pr es st = .ok stF) :
+    ∃ s1 : St F, findName m.attr.name stF.names = some (specIntReg m s1).1.attr.id ∧
+      Stored stF (specIntReg m s1).1.attr.id (.intReg (specIntReg m s1).1) :=
+  retrievable_in_nested_Group pr hdev es _ m.attr.name (fun st => .intReg (specIntReg m st).1) _
+    (parse_render_IntReg pr m) (fun _ => rfl) (grows_specIntReg m) hocc st stF h
+
+theorem retrievable_MaskedIntReg_nested (pr : Profile) (hdev : pr.debugAsserts = true) (es : List Elem)
+    (m : MaskedM) (hocc : Occurs (F := F) pr m.render es) (st stF : St F)
+    (h : topLevel pr es st = .ok stF) :
+    ∃ s1 : St F, findName m.attr.name stF.names = some (specMasked m s1).1.attr.id ∧
+      Stored stF (specMasked m s1).1.attr.id (.maskedIntReg (specMasked m s1).1) :=
+  retrievable_in_nested_Group pr hdev es _ m.attr.name (fun st => .maskedIntReg (specMasked m st).1) _
+    (parse_render_MaskedIntReg pr m) (fun _ => rfl) (grows_specMasked m) hocc st stF h
+
+theorem retrievable_Boolean_nested (pr : Profile) (hdev : pr.debugAsserts = true) (es : List Elem)
+    (m : BooleanM) (hocc : Occurs (F := F) pr m.render es) (st stF : St F)
+    (h : topLevel pr es st = .ok stF) :
+    ∃ s1 : St F, findName m.attr.name stF.names = some (specBoolean m s1).1.attr.id ∧
+      Stored stF (specBoolean m s1).1.attr.id (.boolean (specBoolean m s1).1) :=
+  retrievable_in_nested_Group pr hdev es _ m.attr.name (fun st => .boolean (specBoolean m st).1) _
+    (parse_render_Boolean pr m) (fun st => by simp only [NodeData.attr, specBoolean]; split <;> rfl) (grows_specBoolean m) hocc st stF h
+
+theorem retrievable_Command_nested (pr : Profile) (hdev : pr.debugAsserts = true) (es : List Elem)
+    (m : CommandM) (hocc : Occurs (F := F) pr m.render es) (st stF : St F)
+    (h : topLevel pr es st = .ok stF) :
+    ∃ s1 : St F, findName m.attr.name stF.names = some (specCommand m s1).1.attr.id ∧
+      Stored stF (specCommand m s1).1.attr.id (.command (specCommand m s1).1) :=
+  retrievable_in_nested_Group pr hdev es _ m.attr.name (fun st => .command (specCommand m st).1) _
+    (parse_render_Command pr m) (fun _ => rfl) (grows_specCommand m) hocc st stF h
+
+theorem retrievable_Float_nested (pr : Profile) (hdev : pr.debugAsserts = true) (es : List Elem)
+    (m : FloatM F) (hocc : Occurs (F := F) pr m.render es) (st stF : St F)
+    (h : topLevel pr es st = .ok stF) :
+    ∃ s1 : St F, findName m.attr.name stF.names = some (specFloat m s1).1.attr.id ∧
+      Stored stF (specFloat m s1).1.attr.id (.float (specFloat m s1).1) :=
+  retrievable_in_nested_Group pr hdev es _ m.attr.name (fun st => .float (specFloat m st).1) _
+    (parse_render_Float pr m) (fun _ => rfl) (grows_specFloat m) hocc st stF h
+
+theorem retrievable_FloatReg_nested (pr : Profile) (hdev : pr.debugAsserts = true) (es : List Elem)
+    (m : FloatRegM) (hocc : Occurs (F := F) pr m.render es) (st stF : St F)
+    (h : topLevel pr es st = .ok stF) :
+    ∃ s1 : St F, findName m.attr.name stF.names = some (specFloatReg m s1).1.attr.id ∧
+      Stored stF (specFloatReg m s1).1.attr.id (.floatReg (specFloatReg m s1).1) :=
+  retrievable_in_nested_Group pr hdev es _ m.attr.name (fun st => .floatReg (specFloatReg m st).1) _
+    (parse_render_FloatReg pr m) (fun _ => rfl) (grows_specFloatReg m) hocc st stF h
+
+theorem retrievable_String_nested (pr : Profile) (hdev : pr.debugAsserts = true) (es : List Elem)
+    (m : StringM) (hocc : Occurs (F := F) pr m.render es) (st stF : St F)
+    (h : topLevel pr es st = .ok stF) :
+    ∃ s1 : St F, findName m.attr.name stF.names = some (specString m s1).1.attr.id ∧
+      Stored stF (specString m s1).1.attr.id (.string (specString m s1).1) :=
+  retrievable_in_nested_Group pr hdev es _ m.attr.name (fun st => .string (specString m st).1) _
+    (parse_render_String pr m) (fun _ => rfl) (grows_specString m) hocc st stF h
+
+theorem retrievable_StringReg_nested (pr : Profile) (hdev : pr.debugAsserts = true) (es : List Elem)
+    (m : PlainRegM) (hocc : Occurs (F := F) pr (m.render cs!"StringReg") es) (st stF : St F)
+    (h : topLevel pr es st = .ok stF) :
+    ∃ s1 : St F, findName m.attr.name stF.names = some (specPlainReg m s1).1.attr.id ∧
+      Stored stF (specPlainReg m s1).1.attr.id (.stringReg (specPlainReg m s1).1) :=
+  retrievable_in_nested_Group pr hdev es _ m.attr.name (fun st => .stringReg (specPlainReg m st).1) _
+    (parse_render_StringReg pr m) (fun _ => rfl) (grows_specPlainReg m) hocc st stF h
+
+theorem retrievable_Register_nested (pr : Profile) (hdev : pr.debugAsserts = true) (es : List Elem)
+    (m : PlainRegM) (hocc : Occurs (F := F) pr (m.render cs!"Register") es) (st stF : St F)
+    (h : topLevel pr es st = .ok stF) :
+    ∃ s1 : St F, findName m.attr.name stF.names = some (specPlainReg m s1).1.attr.id ∧
+      Stored stF (specPlainReg m s1).1.attr.id (.register (specPlainReg m s1).1) :=
+  retrievable_in_nested_Group pr hdev es _ m.attr.name (fun st => .register (specPlainReg m st).1) _
+    (parse_render_Register pr m) (fun _ => rfl) (grows_specPlainReg m) hocc st stF h
+
+theorem retrievable_Port_nested (pr : Profile) (hdev : pr.debugAsserts = true) (es : List Elem)
+    (m : PortM) (hocc : Occurs (F := F) pr m.render es) (st stF : St F)
+    (h : topLevel pr es st = .ok stF) :
+    ∃ s1 : St F, findName m.attr.name stF.names = some (specPort m s1).1.attr.id ∧
+      Stored stF (specPort m s1).1.attr.id (.port (specPort m s1).1) :=
+  retrievable_in_nested_Group pr hdev es _ m.attr.name (fun st => .port (specPort m st).1) _
+    (parse_render_Port pr m) (fun _ => rfl) (grows_specPort m) hocc st stF h
+
+theorem retrievable_Converter_nested (pr : Profile) (hdev : pr.debugAsserts = true) (es : List Elem)
+    (m : ConverterM F) (hocc : Occurs (F := F) pr m.render es) (st stF : St F)
+    (h : topLevel pr es st = .ok stF) :
+    ∃ s1 : St F, findName m.attr.name stF.names = some (specConverter m s1).1.attr.id ∧
+      Stored stF (specConverter m s1).1.attr.id (.converter (specConverter m s1).1) :=
+  retrievable_in_nested_Group pr hdev es _ m.attr.name (fun st => .converter (specConverter m st).1) _
+    (parse_render_Converter pr m) (fun _ => rfl) (grows_specConverter m) hocc st stF h
+
+theorem retrievable_IntConverter_nested (pr : Profile) (hdev : pr.debugAsserts = true) (es : List Elem)
+    (m : IntConverterM F) (hocc : Occurs (F := F) pr m.render es) (st stF : St F)
+    (h : topLevel pr es st = .ok stF) :
+    ∃ s1 : St F, findName m.attr.name stF.names = some (specIntConverter m s1).1.attr.id ∧
+      Stored stF (specIntConverter m s1).1.attr.id (.intConverter (specIntConverter m s1).1) :=
+  retrievable_in_nested_Group pr hdev es _ m.attr.name (fun st => .intConverter (specIntConverter m st).1) _
+    (parse_render_IntConverter pr m) (fun _ => rfl) (grows_specIntConverter m) hocc st stF h
+
+theorem retrievable_SwissKnife_nested (pr : Profile) (hdev : pr.debugAsserts = true) (es : List Elem)
+    (m : SwissKnifeM F) (hocc : Occurs (F := F) pr m.render es) (st stF : St F)
+    (h : topLevel pr es st = .ok stF) :
+    ∃ s1 : St F, findName m.attr.name stF.names = some (specSwissKnife m s1).1.attr.id ∧
+      Stored stF (specSwissKnife m s1).1.attr.id (.swissKnife (specSwissKnife m s1).1) :=
+  retrievable_in_nested_Group pr hdev es _ m.attr.name (fun st => .swissKnife (specSwissKnife m st).1) _
+    (parse_render_SwissKnife pr m) (fun _ => rfl) (grows_specSwissKnife m) hocc st stF h
+
+theorem retrievable_IntSwissKnife_nested (pr : Profile) (hdev : pr.debugAsserts = true) (es : List Elem)
+    (m : IntSwissKnifeM F) (hocc : Occurs (F := F) pr m.render es) (st stF : St F)
+    (h : topLevel pr es st = .ok stF) :
+    ∃ s1 : St F, findName m.attr.name stF.names = some (specIntSwissKnife m s1).1.attr.id ∧
+      Stored stF (specIntSwissKnife m s1).1.attr.id (.intSwissKnife (specIntSwissKnife m s1).1) :=
+  retrievable_in_nested_Group pr hdev es _ m.attr.name (fun st => .intSwissKnife (specIntSwissKnife m st).1) _
+    (parse_render_IntSwissKnife pr m) (fun _ => rfl) (grows_specIntSwissKnife m) hocc st stF h
+
+/-- a `StructReg` at any Group depth: every entry is found by name as a `MaskedIntReg` -/
+theorem retrievable_StructReg_entries_nested (pr : Profile) (hdev : pr.debugAsserts = true)
+    (es : List Elem) (s : StructM) (hocc : Occurs (F := F) pr s.render es) (st stF : St F)
+    (h : topLevel pr es st = .ok stF) :
+    ∃ s1 : St F, ∀ n ∈ (specStruct s s1).1, Stored stF n.attr.id (.maskedIntReg n) ∧
+      ∃ e ∈ s.entries, findName e.attr.name stF.names = some n.attr.id := by
+  obtain ⟨s1, de, sE, g1, g2, g3⟩ := occurs_stored pr hdev _ es hocc st stF h
+  rw [parse_render_StructReg pr s s1] at g1
+  simp only [Res.ok.injEq, Prod.mk.injEq] at g1
+  obtain ⟨rfl, rfl⟩ := g1
+  refine ⟨s1, fun n hn => ⟨g3 (.maskedIntReg n) (List.mem_map.mpr ⟨n, hn, rfl⟩), ?_⟩⟩
+  obtain ⟨e, he, si, _, e2, e3⟩ := specStruct_names s s1 n hn
+  refine ⟨e, he, ?_⟩
+  rw [e2]
+  exact idByName_of_le e.attr.name si stF (St.le_trans e3.1 g2.1)
+
+/-- an `Enumeration` at any Group depth, and through it every `EnumEntry` -/
+theorem retrievable_Enumeration_nested (pr : Profile) (hdev : pr.debugAsserts = true)
+    (es : List Elem) (m : EnumerationM F) (hocc : Occurs (F := F) pr m.render es) (st stF : St F)
+    (h : topLevel pr es st = .ok stF) :
+    ∃ n : EnumerationNode, findName m.attr.name stF.names = some n.attr.id ∧
+      Stored stF n.attr.id (.enumeration n) ∧ EntriesStored stF m.entries n.entries := by
+  obtain ⟨s1, de, sE, g1, g2, g3⟩ := occurs_stored pr hdev _ es hocc st stF h
+  rw [parse_render_Enumeration pr m s1] at g1
+  cases hs : specEnumeration pr m s1 with
+  | ok r =>
+    rw [hs] at g1
+    simp only [Res.bind_ok', Res.ok.injEq, Prod.mk.injEq] at g1
+    obtain ⟨rfl, rfl⟩ := g1
+    obtain ⟨e1, k, e3⟩ := specEnumeration_dev pr hdev m s1 r.1 r.2 (by rw [hs])
+    refine ⟨r.1, ?_, g3 (.enumeration r.1) (by simp), EntriesStored.keeps g2 _ _ e3⟩
+    rw [e1]
+    exact idByName_of_le m.attr.name s1 stF (St.le_trans k.1 g2.1)
+  | err x => rw [hs] at g1; cases g1
+  | panic => rw [hs] at g1; cases g1
+
+/-! ## element text: all text children, any number of fragments; noise in front of the cursor -/
+
+/-- `text_view_concat`: the text view of an element is the concatenation of ALL its text
+children in document order — whatever else stands between them (comments, processing
+instructions, child elements) and however many there are. -/
+theorem text_view_concat (children : List Elem) :
+    textView children = .ok (textsOf children).flatten := by
+  simp [textView, concatText_textsOf]
+
+/-- … in the renderer's terms: `k` text fragments (any `k`, also 0 and ≥ 3) with arbitrary runs of
+comments / processing instructions before, between and after them read as the fragments joined
+in order. -/
+theorem text_view_fragments (j0 : List Elem) (frs : List (Str × List Elem))
+    (h : FragNoise j0 frs) : textView (fragChildren j0 frs) = .ok (fragText frs) := by
+  simp [textView, concatText_frag j0 frs h]
+
+/-- the layout "`k` fragments interleaved with comments / processing instructions", chosen per
+text by any `plan` (any `k`, any noise runs) -/
+@[reducible] def TextFrag.ofFragments (plan : Str → List Elem × List (Str × List Elem))
+    (h : ∀ s, FragNoise (plan s).1 (plan s).2 ∧ fragText (plan s).2 = s) : TextFrag where
+  frag s := fragChildren (plan s).1 (plan s).2
+  view s := by rw [concatText_frag _ _ (h s).1, (h s).2]
+
+/-- `parse_render_K` with fragmented element text: the kind theorems are stated for every text
+layout, in particular for every fragment plan — here spelled out for Integer (every text of the
+declaration: ToolTip, Unit, the literal `Value`, node references … laid out in `k ≥ 0` fragments
+with comments / processing instructions anywhere between them). -/
+theorem parse_render_Integer_fragmented (pr : Profile)
+    (plan : Str → List Elem × List (Str × List Elem))
+    (h : ∀ s, FragNoise (plan s).1 (plan s).2 ∧ fragText (plan s).2 = s) (m : IntegerM) (st : St F) :
+    parseElem pr (@IntegerM.render (TextFrag.ofFragments plan h) m) st =
+      .ok ([.integer (specInteger m st).1], (specInteger m st).2) :=
+  @parse_render_Integer F _ (TextFrag.ofFragments plan h) pr m st
+
+/-- every text-reading leaf parser reads a fragmented element like the unfragmented one: strings
+verbatim, node references interned under the joined name, integers converted from the joined
+text -/
+theorem leaf_parsers_fragmented (tag : Str) (j0 : List Elem) (frs : List (Str × List Elem))
+    (h : FragNoise j0 frs) (rest : Cur) (st : St F) :
+    pString (mkNode tag (fb j0 frs) :: rest) st = .ok (fragText frs, rest, st) ∧
+    pNodeId (mkNode tag (fb j0 frs) :: rest) st =
+      .ok ((internS (fragText frs) st).1, rest, (internS (fragText frs) st).2) ∧
+    ∀ l : IntLit, l.text = fragText frs →
+      pI64 (mkNode tag (fb j0 frs) :: rest) st = .ok (l.val, rest, st) := by
+  have hb := textView_fb j0 frs h
+  refine ⟨nextText_body tag _ _ hb rest st, pNodeId_body tag _ _ hb rest st, ?_⟩
+  intro l hl
+  exact pI64_body tag _ l (by rw [hl]; exact hb) rest st
+
+/-- an optional string element (`ToolTip`, `Description`, `Unit`, …) present with fragmented text -/
+theorem optional_string_fragmented (tag : Str) (j0 : List Elem) (frs : List (Str × List Elem))
+    (h : FragNoise j0 frs) (rest : Cur) (st : St F) :
+    parseIf tag pString (mkNode tag (fb j0 frs) :: rest) st = .ok (some (fragText frs), rest, st) := by
+  rw [parseIf_hit, (leaf_parsers_fragmented tag j0 frs h rest st).1]
+  rfl
+
+/-- whitespace text, comments and processing instructions in front of the cursor are invisible to
+every cursor primitive (`next`, `next().unwrap()`, `peek().unwrap()`, `next_if`, `parse_if`) -/
+theorem cursor_skips_leading_noise {α : Type} (j : List Elem) (hj : ∀ x ∈ j, IsNonElem x)
+    (cur : Cur) (st : St F) (tag : Str) (p : P F α) :
+    (next : P F _) (j ++ cur) st = next cur st ∧
+    (nextElem : P F _) (j ++ cur) st = nextElem cur st ∧
+    (peekElem : P F _) (j ++ cur) st = peekElem cur st ∧
+    nextIf (F := F) tag (j ++ cur) st = nextIf tag cur st ∧
+    parseIf tag p (j ++ cur) st = parseIf tag p cur st := by
+  simp [next, nextElem, peekElem, nextIf, parseIf, skipJunk_nonElem j hj cur]
+
+/-! ## noise BETWEEN declarations: comments, processing instructions and whitespace text among the
+children of the root element and of every Group, at every nesting depth
+
+The theorems above take lists of element nodes (`AllElems`).  The parser's loops (`pTopLevel`,
+`pGroupChildren`) walk the raw child list with `Node::next`, which skips everything that is not
+an element; so an ARBITRARY child list `cs` behaves like its element children `elemsOf cs`. -/
+
+/-- the element children of a child list: comments, processing instructions and text (the
+whitespace between declarations) dropped -/
+def elemsOf : List Elem → List Elem
+  | [] => []
+  | .node t a c :: r => .node t a c :: elemsOf r
+  | _ :: r => elemsOf r
+
+omit [TextFrag] in
+theorem allElems_elemsOf (cs : List Elem) : AllElems (elemsOf cs) := by
+  induction cs with
+  | nil => trivial
+  | cons e cs ih => cases e <;> simpa [elemsOf, AllElems] using ih
+
+omit [TextFrag] in
+/-- on a list of elements nothing is dropped: the noise theorems below generalise the
+`AllElems` ones -/
+theorem elemsOf_of_allElems (es : List Elem) (h : AllElems es) : elemsOf es = es := by
+  induction es with
+  | nil => rfl
+  | cons e es ih =>
+    cases e with
+    | node t a c => simp only [elemsOf]; rw [ih (by simpa [AllElems] using h)]
+    | text s => exact absurd h (by simp [AllElems])
+    | comment s => exact absurd h (by simp [AllElems])
+    | pi => exact absurd h (by simp [AllElems])
+
+omit [TextFrag] in
+theorem depthList_elemsOf (cs : List Elem) : Elem.depthList (elemsOf cs) = Elem.depthList cs := by
+  induction cs with
+  | nil => rfl
+  | cons e cs ih => cases e <;> simp [elemsOf, depthList_cons, Elem.depth, ih]
+
+private theorem pGroupChildren_any (pr : Profile) (fuel : Nat) (cs : List Elem)
+    (n : Nat) (hn : cs.length + 1 ≤ n) (st : St F) :
+    pGroupChildren pr fuel n cs st =
+      (parseElemsF pr fuel (elemsOf cs) st).bind fun r => .ok (r.1, [], r.2) := by
+  induction cs generalizing n st with
+  | nil => exact pGroupChildren_members pr fuel [] trivial n hn st
+  | cons e cs ih =>
+    cases n with
+    | zero => omega
+    | succ n =>
+      have hn' : cs.length + 1 ≤ n := by simp at hn; omega
+      cases e with
+      | node tag attrs children =>
+        simp only [elemsOf, pGroupChildren, P.bind_def, next, skipJunk, Res.bind_ok', parseElemsF,
+          parseElemF, onChild_def]
+        cases hp : pNodeDatas pr fuel tag attrs children children st with
+        | ok r =>
+          simp only [Res.bind_ok', ih n hn']
+          cases parseElemsF pr fuel (elemsOf cs) r.2.2 <;> simp [pure_apply]
+        | err e => rfl
+        | panic => rfl
+      | text s =>
+        have e1 : pGroupChildren pr fuel (n + 1) (.text s :: cs) st =
+            pGroupChildren pr fuel (n + 1) cs st := by
+          simp only [pGroupChildren, P.bind_def, next, skipJunk]
+        rw [e1]; exact ih (n + 1) (by omega) st
+      | comment s =>
+        have e1 : pGroupChildren pr fuel (n + 1) (.comment s :: cs) st =
+            pGroupChildren pr fuel (n + 1) cs st := by
+          simp only [pGroupChildren, P.bind_def, next, skipJunk]
+        rw [e1]; exact ih (n + 1) (by omega) st
+      | pi =>
+        have e1 : pGroupChildren pr fuel (n + 1) (.pi :: cs) st =
+            pGroupChildren pr fuel (n + 1) cs st := by
+          simp only [pGroupChildren, P.bind_def, next, skipJunk]
+        rw [e1]; exact ih (n + 1) (by omega) st
+
+private theorem pTopLevel_any (pr : Profile) (fuel : Nat) (cs : List Elem)
+    (n : Nat) (hn : cs.length + 1 ≤ n) (st : St F) :
+    pTopLevel pr fuel n cs st =
+      (topLevelS pr fuel (elemsOf cs) st).bind fun st' => .ok ((), [], st') := by
+  induction cs generalizing n st with
+  | nil => exact pTopLevel_members pr fuel [] trivial n hn st
+  | cons e cs ih =>
+    cases n with
+    | zero => omega
+    | succ n =>
+      have hn' : cs.length + 1 ≤ n := by simp at hn; omega
+      cases e with
+      | node tag attrs children =>
+        simp only [elemsOf, pTopLevel, P.bind_def, next, skipJunk, Res.bind_ok', topLevelS,
+          parseElemF, onChild_def, storeNodes_eq]
+        cases pNodeDatas pr fuel tag attrs children children st with
+        | ok r =>
+          simp only [Res.bind_ok']
+          cases storeAllS pr r.1 r.2.2 with
+          | ok st' => simp only [Res.bind_ok', ih n hn']
+          | err e => rfl
+          | panic => rfl
+        | err e => rfl
+        | panic => rfl
+      | text s =>
+        have e1 : pTopLevel pr fuel (n + 1) (.text s :: cs) st =
+            pTopLevel pr fuel (n + 1) cs st := by
+          simp only [pTopLevel, P.bind_def, next, skipJunk]
+        rw [e1]; exact ih (n + 1) (by omega) st
+      | comment s =>
+        have e1 : pTopLevel pr fuel (n + 1) (.comment s :: cs) st =
+            pTopLevel pr fuel (n + 1) cs st := by
+          simp only [pTopLevel, P.bind_def, next, skipJunk]
+        rw [e1]; exact ih (n + 1) (by omega) st
+      | pi =>
+        have e1 : pTopLevel pr fuel (n + 1) (.pi :: cs) st =
+            pTopLevel pr fuel (n + 1) cs st := by
+          simp only [pTopLevel, P.bind_def, next, skipJunk]
+        rw [e1]; exact ih (n + 1) (by omega) st
+
+/-- `group_flat` for a Group with ANY child list: comments, processing instructions and
+whitespace between (before, after) the members are invisible — the Group yields exactly the
+node data of its element children parsed one after the other in place. -/
+theorem group_flat_noise (pr : Profile) (attrs : List (Str × Str)) (cs : List Elem) (st : St F) :
+    parseElem pr (.node cs!"Group" attrs cs) st = parseElems pr (elemsOf cs) st := by
+  rw [← parseElemsF_eq_parseElems pr (elemsOf cs) (allElems_elemsOf cs) (Elem.depthList cs)
+    (by rw [depthList_elemsOf]; exact Nat.le_refl _) st]
+  simp only [parseElem, pNodeDatas]
+  simp [pGroupChildren_any pr (Elem.depthList cs) cs (cs.length + 1) (Nat.le_refl _) st]
+  cases parseElemsF pr (Elem.depthList cs) (elemsOf cs) st <;> simp
+
+/-- … i.e. the Group with the noise erased parses identically -/
+theorem group_noise_erased (pr : Profile) (attrs : List (Str × Str)) (cs : List Elem) (st : St F) :
+    parseElem pr (.node cs!"Group" attrs cs) st =
+      parseElem pr (.node cs!"Group" attrs (elemsOf cs)) st := by
+  rw [group_flat_noise, group_flat_members pr attrs _ (allElems_elemsOf cs)]
+
+/-- `document_members` for a root element with ANY child list: comments, processing instructions
+and whitespace between the top-level declarations are invisible to `parser::parse`. -/
+theorem document_noise (pr : Profile) (attrs : List (Str × Str)) (cs : List Elem) :
+    parseDocument (F := F) pr (.node cs!"RegisterDescription" attrs cs) =
+      (pRegisterDescription attrs).bind fun rd =>
+        (topLevel pr (elemsOf cs) St.empty).bind fun st => .ok (rd, st) := by
+  rw [← topLevelS_eq_topLevel pr (elemsOf cs) (allElems_elemsOf cs) (Elem.depthList cs + 1)
+    (by rw [depthList_elemsOf]; exact Nat.lt_succ_self _) St.empty]
+  simp only [parseDocument]
+  cases pRegisterDescription attrs with
+  | ok rd =>
+    simp [Bind.bind, Res.bind, pTopLevel_any pr _ cs (cs.length + 1) (Nat.le_refl _), Pure.pure]
+    cases topLevelS pr (Elem.depthList cs + 1) (elemsOf cs) (St.empty (F := F)) <;> rfl
+  | err e => simp [Bind.bind, Res.bind]
+  | panic => simp [Bind.bind, Res.bind]
+
+/-- … i.e. the document with the top-level noise erased parses identically (result, register
+description, final store) -/
+theorem document_noise_erased (pr : Profile) (attrs : List (Str × Str)) (cs : List Elem) :
+    parseDocument (F := F) pr (.node cs!"RegisterDescription" attrs cs) =
+      parseDocument pr (.node cs!"RegisterDescription" attrs (elemsOf cs)) := by
+  rw [document_noise, document_members pr attrs (elemsOf cs) (allElems_elemsOf cs)]
+
+/-- a successful `parser::parse` of a noisy document is a successful run of the top-level fold
+over its element children -/
+theorem document_ok_noise (pr : Profile) (attrs : List (Str × Str)) (cs : List Elem)
+    (rd : RegisterDescription) (stF : St F)
+    (h : parseDocument pr (.node cs!"RegisterDescription" attrs cs) = .ok (rd, stF)) :
+    pRegisterDescription attrs = .ok rd ∧ topLevel pr (elemsOf cs) St.empty = .ok stF := by
+  rw [document_noise] at h
+  cases hr : pRegisterDescription attrs with
+  | ok rd' =>
+    rw [hr] at h
+    simp only [Res.bind_ok'] at h
+    cases ht : topLevel pr (elemsOf cs) (St.empty (F := F)) with
+    | ok s =>
+      rw [ht] at h
+      simp only [Res.bind_ok', Res.ok.injEq, Prod.mk.injEq] at h
+      obtain ⟨rfl, rfl⟩ := h
+      exact ⟨rfl, rfl⟩
+    | err x => rw [ht] at h; cases h
+    | panic => rw [ht] at h; cases h
+  | err x => rw [hr] at h; cases h
+  | panic => rw [hr] at h; cases h
+
+/-- `good_Group` for a Group with any child list -/
+theorem good_Group_noise (pr : Profile) (attrs : List (Str × Str)) (cs : List Elem)
+    (hgood : ∀ x ∈ elemsOf cs, Good (F := F) pr x) : Good (F := F) pr (.node cs!"Group" attrs cs) := by
+  intro st ds st' h
+  rw [group_flat_noise pr attrs cs st] at h
+  exact parseElems_keeps pr (elemsOf cs) hgood st ds st' h
+
+/-- `Occurs` amid noise: `e` is an element child of the child list `cs`, or of a Group among the
+element children, or of a Group in a Group, … — every child list on the path may carry any
+comments / processing instructions / whitespace text between its elements. -/
+inductive OccursN (pr : Profile) (e : Elem) : List Elem → Prop where
+  | here {cs : List Elem} (a b : List Elem) (hcs : elemsOf cs = a ++ e :: b)
+      (hsib : ∀ x, x ∈ a ∨ x ∈ b → Good (F := F) pr x) : OccursN pr e cs
+  | inGroup {cs : List Elem} (a b : List Elem) (attrs : List (Str × Str)) (gs : List Elem)
+      (hcs : elemsOf cs = a ++ .node cs!"Group" attrs gs :: b)
+      (hsib : ∀ x, x ∈ a ∨ x ∈ b → Good (F := F) pr x)
+      (hmem : ∀ x ∈ elemsOf gs, Good (F := F) pr x) (h : OccursN pr e gs) : OccursN pr e cs
+
+/-- the noise-free path is a special case -/
+theorem occursN_of_occurs (pr : Profile) (e : Elem) (es : List Elem) (hel : AllElems es)
+    (h : Occurs (F := F) pr e es) : OccursN (F := F) pr e es := by
+  induction h with
+  | here a b hsib => exact OccursN.here a b (elemsOf_of_allElems _ hel) hsib
+  | inGroup a b attrs gs hsib hel' hmem _ ih =>
+    exact OccursN.inGroup a b attrs gs (elemsOf_of_allElems _ hel) hsib
+      (by rw [elemsOf_of_allElems _ hel']; exact hmem) (ih hel')
+
+theorem occursN_parsed (pr : Profile) (e : Elem) (cs : List Elem)
+    (hocc : OccursN (F := F) pr e cs) :
+    ∀ (st : St F) (ds : List (NodeData F)) (st' : St F),
+      parseElems pr (elemsOf cs) st = .ok (ds, st') →
+      ∃ s1 de s2, parseElem pr e s1 = .ok (de, s2) ∧ (∀ d ∈ de, d ∈ ds) ∧ Keeps s2 st' := by
+  induction hocc with
+  | here a b hcs hsib =>
+    intro st ds st' h
+    rw [hcs] at h
+    obtain ⟨da, s1, de, s2, db, _, g2, g3, g4⟩ := parseElems_split pr a b e st ds st' h
+    have k3 := parseElems_keeps pr b (fun x hx => hsib x (Or.inr hx)) _ _ _ g3
+    exact ⟨s1, de, s2, g2, fun d hd => by rw [g4]; simp [hd], k3⟩
+  | inGroup a b attrs gs hcs hsib hmem _ ih =>
+    intro st ds st' h
+    rw [hcs] at h
+    obtain ⟨da, s1, dg, s2, db, _, g2, g3, g4⟩ := parseElems_split pr a b _ st ds st' h
+    rw [group_flat_noise pr attrs gs s1] at g2
+    obtain ⟨t1, de, t2, i1, i2, i3⟩ := ih s1 dg s2 g2
+    have k3 := parseElems_keeps pr b (fun x hx => hsib x (Or.inr hx)) _ _ _ g3
+    exact ⟨t1, de, t2, i1, fun d hd => by rw [g4]; simp [i2 d hd], i3.trans k3⟩
+
+theorem occursN_stored (pr : Profile) (hdev : pr.debugAsserts = true) (e : Elem) (cs : List Elem)
+    (hocc : OccursN (F := F) pr e cs) (st stF : St F)
+    (h : topLevel pr (elemsOf cs) st = .ok stF) :
+    ∃ s1 de s2, parseElem pr e s1 = .ok (de, s2) ∧ Keeps s2 stF ∧
+      ∀ d ∈ de, Stored stF d.attr.id d := by
+  cases hocc with
+  | here a b hcs hsib =>
+    rw [hcs] at h
+    exact occurs_stored pr hdev e _ (Occurs.here a b hsib) st stF h
+  | inGroup a b attrs gs hcs hsib hmem hin =>
+    rw [hcs] at h
+    have hgood : ∀ x ∈ a ++ .node cs!"Group" attrs gs :: b, Good (F := F) pr x := by
+      intro x hx
+      rcases List.mem_append.mp hx with hx | hx
+      · exact hsib x (Or.inl hx)
+      · rcases List.mem_cons.mp hx with rfl | hx
+        · exact good_Group_noise pr attrs _ hmem
+        · exact hsib x (Or.inr hx)
+    obtain ⟨st1, ds, st2, _, h2, _, h4, h5⟩ := document_retrievable pr hdev a b _ hgood st stF h
+    rw [group_flat_noise pr attrs gs st1] at h2
+    obtain ⟨t1, de, t2, i1, i2, i3⟩ := occursN_parsed pr e gs hin st1 ds st2 h2
+    exact ⟨t1, de, t2, i1, i3.trans h4, fun d hd => h5 d (i2 d hd)⟩
+
+/-- `retrievable_amid_noise`: `parser::parse` of a WHOLE document whose root and Groups carry
+arbitrary comments / processing instructions / whitespace between their children: a declaration
+at any Group depth that yields one node under the id of its `Name` is found, at the end of the
+document, under that name with the node's normal form exactly as parsed.  (Together with the
+`TextFrag` layout parameter: noise inside element text AND between declarations.) -/
+theorem retrievable_amid_noise (pr : Profile) (hdev : pr.debugAsserts = true)
+    (attrs : List (Str × Str)) (cs : List Elem)
+    (e : Elem) (name : Str) (d : St F → NodeData F) (s2 : St F → St F)
+    (hp : ∀ st, parseElem pr e st = .ok ([d st], s2 st))
+    (hid : ∀ st, (d st).attr.id = (internS name st).1)
+    (hg : ∀ st, Grows (internS name st).2 (s2 st))
+    (hocc : OccursN (F := F) pr e cs) (rd : RegisterDescription) (stF : St F)
+    (h : parseDocument pr (.node cs!"RegisterDescription" attrs cs) = .ok (rd, stF)) :
+    ∃ s1, findName name stF.names = some (d s1).attr.id ∧ Stored stF (d s1).attr.id (d s1) := by
+  have htop := (document_ok_noise pr attrs cs rd stF h).2
+  obtain ⟨s1, de, sE, g1, g2, g3⟩ := occursN_stored pr hdev e cs hocc St.empty stF htop
+  rw [hp s1] at g1
+  simp only [Res.ok.injEq, Prod.mk.injEq] at g1
+  obtain ⟨rfl, rfl⟩ := g1
+  refine ⟨s1, ?_, g3 (d s1) (by simp)⟩
+  rw [hid s1]
+  exact idByName_of_le name s1 stF (St.le_trans (hg s1).1 g2.1)
+
+/-- … for an Integer declaration (the other kinds alike, from their `parse_render_K` /
+`grows_specK`) -/
+theorem retrievable_Integer_amid_noise (pr : Profile) (hdev : pr.debugAsserts = true)
+    (attrs : List (Str × Str)) (cs : List Elem) (m : IntegerM)
+    (hocc : OccursN (F := F) pr m.render cs) (rd : RegisterDescription) (stF : St F)
+    (h : parseDocument pr (.node cs!"RegisterDescription" attrs cs) = .ok (rd, stF)) :
+    ∃ s1 : St F, findName m.attr.name stF.names = some (specInteger m s1).1.attr.id ∧
+      Stored stF (specInteger m s1).1.attr.id (.integer (specInteger m s1).1) :=
+  retrievable_amid_noise pr hdev attrs cs _ m.attr.name (fun st => .integer (specInteger m st).1) _
+    (parse_render_Integer pr m) (fun _ => rfl) (grows_specInteger m) hocc rd stF h
+
+/-! ### … spelled out for every kind (the `_nested` theorems amid noise, for whole `parser::parse`) -/
+
+theorem retrievable_Node_amid_noise (pr : Profile) (hdev : pr.debugAsserts = true)
+    (attrs : List (Str × Str)) (cs : List Elem)
+    (m : NodeM) (hocc : OccursN (F := F) pr m.render cs) (rd : RegisterDescription) (stF : St F)
+    (h : parseDocument pr (.node cs!"RegisterDescription" attrs cs) = .ok (rd, stF)) :
+    ∃ s1 : St F, findName m.attr.name stF.names = some (specNode m s1).1.attr.id ∧
+      Stored stF (specNode m s1).1.attr.id (.node (specNode m s1).1) :=
+  retrievable_amid_noise pr hdev attrs cs _ m.attr.name (fun st => .node (specNode m st).1) _
+    (parse_render_Node pr m) (fun _ => rfl) (grows_specNode m) hocc rd stF h
+
+theorem retrievable_Category_amid_noise (pr : Profile) (hdev : pr.debugAsserts = true)
+    (attrs : List (Str × Str)) (cs : List Elem)
+    (m : CategoryM) (hocc : OccursN (F := F) pr m.render cs) (rd : RegisterDescription) (stF : St F)
+    (h : parseDocument pr (.node cs!"RegisterDescription" attrs cs) = .ok (rd, stF)) :
+    ∃ s1 : St F, findName m.attr.name stF.names = some (specCategory m s1).1.attr.id ∧
+      Stored stF (specCategory m s1).1.attr.id (.category (specCategory m s1).1) :=
+  retrievable_amid_noise pr hdev attrs cs _ m.attr.name (fun st => .category (specCategory m st).1) _
+    (parse_render_Category pr m) (fun _ => rfl) (grows_specCategory m) hocc rd stF h
+
+theorem retrievable_IntReg_amid_noise (pr : Profile) (hdev : pr.debugAsserts = true)
+    (attrs : List (Str × Str)) (cs : List Elem)
+    (m : IntRegM) (hocc : OccursN (F := F) pr m.render cs) (rd : RegisterDescription) (stF : St F)
+    (h : parseDocument pr (.node cs!"RegisterDescription" attrs cs) = .ok (rd, stF)) :
+    ∃ s1 : St F, findName m.attr.name stF.names = some (specIntReg m s1).1.attr.id ∧
+      Stored stF (specIntReg m s1).1.attr.id (.intReg (specIntReg m s1).1) :=
+  retrievable_amid_noise pr hdev attrs cs _ m.attr.name (fun st => .intReg (specIntReg m st).1) _
+    (parse_render_IntReg pr m) (fun _ => rfl) (grows_specIntReg m) hocc rd stF h
+
+theorem retrievable_MaskedIntReg_amid_noise (pr : Profile) (hdev : pr.debugAsserts = true)
+    (attrs : List (Str × Str)) (cs : List Elem)
+    (m : MaskedM) (hocc : OccursN (F := F) pr m.render cs) (rd : RegisterDescription) (stF : St F)
+    (h : parseDocument pr (.node cs!"RegisterDescription" attrs cs) = .ok (rd, stF)) :
+    ∃ s1 : St F, findName m.attr.name stF.names = some (specMasked m s1).1.attr.id ∧
+      Stored stF (specMasked m s1).1.attr.id (.maskedIntReg (specMasked m s1).1) :=
+  retrievable_amid_noise pr hdev attrs cs _ m.attr.name (fun st => .maskedIntReg (specMasked m st).1) _
+    (parse_render_MaskedIntReg pr m) (fun _ => rfl) (grows_specMasked m) hocc rd stF h
+
+theorem retrievable_Boolean_amid_noise (pr : Profile) (hdev : pr.debugAsserts = true)
+    (attrs : List (Str × Str)) (cs : List Elem)
+    (m : BooleanM) (hocc : OccursN (F := F) pr m.render cs) (rd : RegisterDescription) (stF : St F)
+    (h : parseDocument pr (.node cs!"RegisterDescription" attrs cs) = .ok (rd, stF)) :
+    ∃ s1 : St F, findName m.attr.name stF.names = some (specBoolean m s1).1.attr.id ∧
+      Stored stF (specBoolean m s1).1.attr.id (.boolean (specBoolean m s1).1) :=
+  retrievable_amid_noise pr hdev attrs cs _ m.attr.name (fun st => .boolean (specBoolean m st).1) _
+    (parse_render_Boolean pr m) (fun st => by simp only [NodeData.attr, specBoolean]; split <;> rfl) (grows_specBoolean m) hocc rd stF h
+
+theorem retrievable_Command_amid_noise (pr : Profile) (hdev : pr.debugAsserts = true)
+    (attrs : List (Str × Str)) (cs : List Elem)
+    (m : CommandM) (hocc : OccursN (F := F) pr m.render cs) (rd : RegisterDescription) (stF : St F)
+    (h : parseDocument pr (.node cs!"RegisterDescription" attrs cs) = .ok (rd, stF)) :
+    ∃ s1 : St F, findName m.attr.name stF.names = some (specCommand m s1).1.attr.id ∧
+      Stored stF (specCommand m s1).1.attr.id (.command (specCommand m s1).1) :=
+  retrievable_amid_noise pr hdev attrs cs _ m.attr.name (fun st => .command (specCommand m st).1) _
+    (parse_render_Command pr m) (fun _ => rfl) (grows_specCommand m) hocc rd stF h
+
+theorem retrievable_Float_amid_noise (pr : Profile) (hdev : pr.debugAsserts = true)
+    (attrs : List (Str × Str)) (cs : List Elem)
+    (m : FloatM F) (hocc : OccursN (F := F) pr m.render cs) (rd : RegisterDescription) (stF : St F)
+    (h : parseDocument pr (.node cs!"RegisterDescription" attrs cs) = .ok (rd, stF)) :
+    ∃ s1 : St F, findName m.attr.name stF.names = some (specFloat m s1).1.attr.id ∧
+      Stored stF (specFloat m s1).1.attr.id (.float (specFloat m s1).1) :=
+  retrievable_amid_noise pr hdev attrs cs _ m.attr.name (fun st => .float (specFloat m st).1) _
+    (parse_render_Float pr m) (fun _ => rfl) (grows_specFloat m) hocc rd stF h
+
+theorem retrievable_FloatReg_amid_noise (pr : Profile) (hdev : pr.debugAsserts = true)
+    (attrs : List (Str × Str)) (cs : List Elem)
+    (m : FloatRegM) (hocc : OccursN (F := F) pr m.render cs) (rd : RegisterDescription) (stF : St F)
+    (h : parseDocument pr (.node cs!"RegisterDescription" attrs cs) = .ok (rd, stF)) :
+    ∃ s1 : St F, findName m.attr.name stF.names = some (specFloatReg m s1).1.attr.id ∧
+      Stored stF (specFloatReg m s1).1.attr.id (.floatReg (specFloatReg m s1).1) :=
+  retrievable_amid_noise pr hdev attrs cs _ m.attr.name (fun st => .floatReg (specFloatReg m st).1) _
+    (parse_render_FloatReg pr m) (fun _ => rfl) (grows_specFloatReg m) hocc rd stF h
+
+theorem retrievable_String_amid_noise (pr : Profile) (hdev : pr.debugAsserts = true)
+    (attrs : List (Str × Str)) (cs : List Elem)
+    (m : StringM) (hocc : OccursN (F := F) pr m.render cs) (rd : RegisterDescription) (stF : St F)
+    (h : parseDocument pr (.node cs!"RegisterDescription" attrs cs) = .ok (rd, stF)) :
+    ∃ s1 : St F, findName m.attr.name stF.names = some (specString m s1).1.attr.id ∧
+      Stored stF (specString m s1).1.attr.id (.string (specString m s1).1) :=
+  retrievable_amid_noise pr hdev attrs cs _ m.attr.name (fun st => .string (specString m st).1) _
+    (parse_render_String pr m) (fun _ => rfl) (grows_specString m) hocc rd stF h
+
+theorem retrievable_StringReg_amid_noise (pr : Profile) (hdev : pr.debugAsserts = true)
+    (attrs : List (Str × Str)) (cs : List Elem)
+    (m : PlainRegM) (hocc : OccursN (F := F) pr (m.render cs!"StringReg") cs) (rd : RegisterDescription) (stF : St F)
+    (h : parseDocument pr (.node cs!"RegisterDescription" attrs cs) = .ok (rd, stF)) :
+    ∃ s1 : St F, findName m.attr.name stF.names = some (specPlainReg m s1).1.attr.id ∧
+      Stored stF (specPlainReg m s1).1.attr.id (.stringReg (specPlainReg m s1).1) :=
+  retrievable_amid_noise pr hdev attrs cs _ m.attr.name (fun st => .stringReg (specPlainReg m st).1) _
+    (parse_render_StringReg pr m) (fun _ => rfl) (grows_specPlainReg m) hocc rd stF h
+
+theorem retrievable_Register_amid_noise (pr : Profile) (hdev : pr.debugAsserts = true)
+    (attrs : List (Str × Str)) (cs : List Elem)
+    (m : PlainRegM) (hocc : OccursN (F := F) pr (m.render cs!"Register") cs) (rd : RegisterDescription) (stF : St F)
+    (h : parseDocument pr (.node cs!"RegisterDescription" attrs cs) = .ok (rd, stF)) :
+    ∃ s1 : St F, findName m.attr.name stF.names = some (specPlainReg m s1).1.attr.id ∧
+      Stored stF (specPlainReg m s1).1.attr.id (.register (specPlainReg m s1).1) :=
+  retrievable_amid_noise pr hdev attrs cs _ m.attr.name (fun st => .register (specPlainReg m st).1) _
+    (parse_render_Register pr m) (fun _ => rfl) (grows_specPlainReg m) hocc rd stF h
+
+theorem retrievable_Port_amid_noise (pr : Profile) (hdev : pr.debugAsserts = true)
+    (attrs : List (Str × Str)) (cs : List Elem)
+    (m : PortM) (hocc : OccursN (F := F) pr m.render cs) (rd : RegisterDescription) (stF : St F)
+    (h : parseDocument pr (.node cs!"RegisterDescription" attrs cs) = .ok (rd, stF)) :
+    ∃ s1 : St F, findName m.attr.name stF.names = some (specPort m s1).1.attr.id ∧
+      Stored stF (specPort m s1).1.attr.id (.port (specPort m s1).1) :=
+  retrievable_amid_noise pr hdev attrs cs _ m.attr.name (fun st => .port (specPort m st).1) _
+    (parse_render_Port pr m) (fun _ => rfl) (grows_specPort m) hocc rd stF h
+
+theorem retrievable_Converter_amid_noise (pr : Profile) (hdev : pr.debugAsserts = true)
+    (attrs : List (Str × Str)) (cs : List Elem)
+    (m : ConverterM F) (hocc : OccursN (F := F) pr m.render cs) (rd : RegisterDescription) (stF : St F)
+    (h : parseDocument pr (.node cs!"RegisterDescription" attrs cs) = .ok (rd, stF)) :
+    ∃ s1 : St F, findName m.attr.name stF.names = some (specConverter m s1).1.attr.id ∧
+      Stored stF (specConverter m s1).1.attr.id (.converter (specConverter m s1).1) :=
+  retrievable_amid_noise pr hdev attrs cs _ m.attr.name (fun st => .converter (specConverter m st).1) _
+    (parse_render_Converter pr m) (fun _ => rfl) (grows_specConverter m) hocc rd stF h
+
+theorem retrievable_IntConverter_amid_noise (pr : Profile) (hdev : pr.debugAsserts = true)
+    (attrs : List (Str × Str)) (cs : List Elem)
+    (m : IntConverterM F) (hocc : OccursN (F := F) pr m.render cs) (rd : RegisterDescription) (stF : St F)
+    (h : parseDocument pr (.node cs!"RegisterDescription" attrs cs) = .ok (rd, stF)) :
+    ∃ s1 : St F, findName m.attr.name stF.names = some (specIntConverter m s1).1.attr.id ∧
+      Stored stF (specIntConverter m s1).1.attr.id (.intConverter (specIntConverter m s1).1) :=
+  retrievable_amid_noise pr hdev attrs cs _ m.attr.name (fun st => .intConverter (specIntConverter m st).1) _
+    (parse_render_IntConverter pr m) (fun _ => rfl) (grows_specIntConverter m) hocc rd stF h
+
+theorem retrievable_SwissKnife_amid_noise (pr : Profile) (hdev : pr.debugAsserts = true)
+    (attrs : List (Str × Str)) (cs : List Elem)
+    (m : SwissKnifeM F) (hocc : OccursN (F := F) pr m.render cs) (rd : RegisterDescription) (stF : St F)
+    (h : parseDocument pr (.node cs!"RegisterDescription" attrs cs) = .ok (rd, stF)) :
+    ∃ s1 : St F, findName m.attr.name stF.names = some (specSwissKnife m s1).1.attr.id ∧
+      Stored stF (specSwissKnife m s1).1.attr.id (.swissKnife (specSwissKnife m s1).1) :=
+  retrievable_amid_noise pr hdev attrs cs _ m.attr.name (fun st => .swissKnife (specSwissKnife m st).1) _
+    (parse_render_SwissKnife pr m) (fun _ => rfl) (grows_specSwissKnife m) hocc rd stF h
+
+theorem retrievable_IntSwissKnife_amid_noise (pr : Profile) (hdev : pr.debugAsserts = true)
+    (attrs : List (Str × Str)) (cs : List Elem)
+    (m : IntSwissKnifeM F) (hocc : OccursN (F := F) pr m.render cs) (rd : RegisterDescription) (stF : St F)
+    (h : parseDocument pr (.node cs!"RegisterDescription" attrs cs) = .ok (rd, stF)) :
+    ∃ s1 : St F, findName m.attr.name stF.names = some (specIntSwissKnife m s1).1.attr.id ∧
+      Stored stF (specIntSwissKnife m s1).1.attr.id (.intSwissKnife (specIntSwissKnife m s1).1) :=
+  retrievable_amid_noise pr hdev attrs cs _ m.attr.name (fun st => .intSwissKnife (specIntSwissKnife m st).1) _
+    (parse_render_IntSwissKnife pr m) (fun _ => rfl) (grows_specIntSwissKnife m) hocc rd stF h
+
+/-- a `StructReg` at any Group depth: every entry is found by name as a `MaskedIntReg` -/
+theorem retrievable_StructReg_entries_amid_noise (pr : Profile) (hdev : pr.debugAsserts = true)
+    (attrs : List (Str × Str)) (cs : List Elem) (s : StructM)
+    (hocc : OccursN (F := F) pr s.render cs) (rd : RegisterDescription) (stF : St F)
+    (h : parseDocument pr (.node cs!"RegisterDescription" attrs cs) = .ok (rd, stF)) :
+    ∃ s1 : St F, ∀ n ∈ (specStruct s s1).1, Stored stF n.attr.id (.maskedIntReg n) ∧
+      ∃ e ∈ s.entries, findName e.attr.name stF.names = some n.attr.id := by
+  obtain ⟨s1, de, sE, g1, g2, g3⟩ := occursN_stored pr hdev _ cs hocc St.empty stF
+    (document_ok_noise pr attrs cs rd stF h).2
+  rw [parse_render_StructReg pr s s1] at g1
+  simp only [Res.ok.injEq, Prod.mk.injEq] at g1
+  obtain ⟨rfl, rfl⟩ := g1
+  refine ⟨s1, fun n hn => ⟨g3 (.maskedIntReg n) (List.mem_map.mpr ⟨n, hn, rfl⟩), ?_⟩⟩
+  obtain ⟨e, he, si, _, e2, e3⟩ := specStruct_names s s1 n hn
+  refine ⟨e, he, ?_⟩
+  rw [e2]
+  exact idByName_of_le e.attr.name si stF (St.le_trans e3.1 g2.1)
+
+/-- an `Enumeration` at any Group depth, and through it every `EnumEntry` -/
+theorem retrievable_Enumeration_amid_noise (pr : Profile) (hdev : pr.debugAsserts = true)
+    (attrs : List (Str × Str)) (cs : List Elem) (m : EnumerationM F) (hocc : OccursN (F := F) pr m.render cs) (rd : RegisterDescription) (stF : St F)
+    (h : parseDocument pr (.node cs!"RegisterDescription" attrs cs) = .ok (rd, stF)) :
+    ∃ n : EnumerationNode, findName m.attr.name stF.names = some n.attr.id ∧
+      Stored stF n.attr.id (.enumeration n) ∧ EntriesStored stF m.entries n.entries := by
+  obtain ⟨s1, de, sE, g1, g2, g3⟩ := occursN_stored pr hdev _ cs hocc St.empty stF
+    (document_ok_noise pr attrs cs rd stF h).2
+  rw [parse_render_Enumeration pr m s1] at g1
+  cases hs : specEnumeration pr m s1 with
+  | ok r =>
+    rw [hs] at g1
+    simp only [Res.bind_ok', Res.ok.injEq, Prod.mk.injEq] at g1
+    obtain ⟨rfl, rfl⟩ := g1
+    obtain ⟨e1, k, e3⟩ := specEnumeration_dev pr hdev m s1 r.1 r.2 (by rw [hs])
+    refine ⟨r.1, ?_, g3 (.enumeration r.1) (by simp), EntriesStored.keeps g2 _ _ e3⟩
+    rw [e1]
+    exact idByName_of_le m.attr.name s1 stF (St.le_trans k.1 g2.1)
+  | err x => rw [hs] at g1; cases g1
+  | panic => rw [hs] at g1; cases g1
+
+/-! ## registers whose address list embeds IntSwissKnife declarations
+
+`RegK` extends the register base's abstract syntax by embedded `<IntSwissKnife Name=…>`
+address particles.  The parser parses such a knife like a top-level IntSwissKnife, stores it and
+lets the address list refer to its id; because of the `store_node` the normal forms are
+`Res`-valued (with debug assertions a knife whose id already holds a node panics). -/
+
+/-- `reg_base` with embedded knives: all presence patterns, all five address particle kinds in
+any order and number -/
+theorem reg_base_embedded (pr : Profile) (m : RegK F) (rest : List Seg) (st : St F)
+    (h : noneStart regTags rest = true) :
+    pRegBase pr (flat (m.segs ++ rest)) st =
+      (specRegK pr m st).bind fun r => .ok (r.1, flat rest, r.2) :=
+  pRegBase_segsK pr m rest st h
+
+/-- it generalises `reg_base`: without knives the normal form is the total `specReg`, no panic -/
+theorem reg_base_embedded_knife_free (pr : Profile) (m : RegM) (st : St F) :
+    specRegK pr (m.toK (F := F)) st = .ok (specReg m st) := specRegK_toK pr m st
+
+/-- parsing `e` stores the embedded knife `k` (as its normal form, under the id of its name) -/
+def Embeds (pr : Profile) (e : Elem) (k : IntSwissKnifeM F) : Prop :=
+  ∀ (st : St F) ds st', parseElem pr e st = .ok (ds, st') → KnifeStored st' k
+
+/-- the parsed register base refers to every embedded knife by its id -/
+theorem reg_base_embedded_refers (pr : Profile) (hdev : pr.debugAsserts = true) (m : RegK F)
+    (st : St F) (r : RegBase) (st' : St F) (h : specRegK pr m st = .ok (r, st'))
+    (k : IntSwissKnifeM F) (hk : AddrK.knife k ∈ m.addrs) :
+    KnifeStored st' k ∧
+      ∃ s : St F, AddressKind.intSwissKnife (specIntSwissKnife k s).1.attr.id ∈ r.addressKinds :=
+  (specRegK_dev pr hdev m st r st' h).2 k hk
+
+theorem parse_render_IntReg_embedded (pr : Profile) (m : IntRegK F) (st : St F) :
+    parseElem pr m.render st = (specIntRegK pr m st).bind fun r => .ok ([.intReg r.1], r.2) := by
+  simp only [parseElem, IntRegK.render, pNodeDatas]
+  simp [P.bind_def, pIntRegK_render]
+  cases specIntRegK pr m st <;> simp [pure_apply]
+
+/-- debug assertions on: a successful parse of the register keeps the store and has stored every
+embedded knife as its normal form -/
+theorem embedded_IntReg_dev (pr : Profile) (hdev : pr.debugAsserts = true) (m : IntRegK F) :
+    Good (F := F) pr m.render ∧ ∀ k, AddrK.knife k ∈ m.reg.addrs → Embeds (F := F) pr m.render k := by
+  have key : ∀ (st : St F) ds st', parseElem pr m.render st = .ok (ds, st') →
+      Keeps st st' ∧ ∀ k, AddrK.knife k ∈ m.reg.addrs → KnifeStored st' k := by
+    intro st ds st' h
+    rw [parse_render_IntReg_embedded pr m st] at h
+    cases hs : specIntRegK pr m st with
+    | ok r =>
+      rw [hs] at h
+      simp only [Res.bind_ok', Res.ok.injEq, Prod.mk.injEq] at h
+      obtain ⟨_, rfl⟩ := h
+      simp only [specIntRegK] at hs
+      cases hr : specRegK pr m.reg (specAttr m.attr st).2 with
+      | ok rr =>
+        rw [hr] at hs
+        simp only [Res.bind_ok', Res.ok.injEq] at hs
+        obtain ⟨k1, f1⟩ := specRegK_dev pr hdev m.reg _ rr.1 rr.2 (by rw [hr])
+        have k0 : Keeps st (specAttr m.attr st).2 := (grows_specAttr m.attr (Grows.refl st)).keeps
+        have k2 : Keeps rr.2 r.2 := by
+          rw [← hs]
+          exact (grows_invalS _ _ (grows_listS growsF_internS _ (Grows.refl rr.2))).keeps
+        exact ⟨(k0.trans k1).trans k2, fun k hk => (f1 k hk).1.keeps k2⟩
+      | err x => rw [hr] at hs; cases hs
+      | panic => rw [hr] at hs; cases hs
+    | err x => rw [hs] at h; cases h
+    | panic => rw [hs] at h; cases h
+  exact ⟨fun st ds st' h => (key st ds st' h).1, fun k hk st ds st' h => (key st ds st' h).2 k hk⟩
+
+theorem parse_render_MaskedIntReg_embedded (pr : Profile) (m : MaskedK F) (st : St F) :
+    parseElem pr m.render st = (specMaskedK pr m st).bind fun r => .ok ([.maskedIntReg r.1], r.2) := by
+  simp only [parseElem, MaskedK.render, pNodeDatas]
+  simp [P.bind_def, pMaskedIntRegK_render]
+  cases specMaskedK pr m st <;> simp [pure_apply]
+
+/-- debug assertions on: a successful parse of the register keeps the store and has stored every
+embedded knife as its normal form -/
+theorem embedded_MaskedIntReg_dev (pr : Profile) (hdev : pr.debugAsserts = true) (m : MaskedK F) :
+    Good (F := F) pr m.render ∧ ∀ k, AddrK.knife k ∈ m.reg.addrs → Embeds (F := F) pr m.render k := by
+  have key : ∀ (st : St F) ds st', parseElem pr m.render st = .ok (ds, st') →
+      Keeps st st' ∧ ∀ k, AddrK.knife k ∈ m.reg.addrs → KnifeStored st' k := by
+    intro st ds st' h
+    rw [parse_render_MaskedIntReg_embedded pr m st] at h
+    cases hs : specMaskedK pr m st with
+    | ok r =>
+      rw [hs] at h
+      simp only [Res.bind_ok', Res.ok.injEq, Prod.mk.injEq] at h
+      obtain ⟨_, rfl⟩ := h
+      simp only [specMaskedK] at hs
+      cases hr : specRegK pr m.reg (specAttr m.attr st).2 with
+      | ok rr =>
+        rw [hr] at hs
+        simp only [Res.bind_ok', Res.ok.injEq] at hs
+        obtain ⟨k1, f1⟩ := specRegK_dev pr hdev m.reg _ rr.1 rr.2 (by rw [hr])
+        have k0 : Keeps st (specAttr m.attr st).2 := (grows_specAttr m.attr (Grows.refl st)).keeps
+        have k2 : Keeps rr.2 r.2 := by
+          rw [← hs]
+          exact (grows_invalS _ _ (grows_listS growsF_internS _ (Grows.refl rr.2))).keeps
+        exact ⟨(k0.trans k1).trans k2, fun k hk => (f1 k hk).1.keeps k2⟩
+      | err x => rw [hr] at hs; cases hs
+      | panic => rw [hr] at hs; cases hs
+    | err x => rw [hs] at h; cases h
+    | panic => rw [hs] at h; cases h
+  exact ⟨fun st ds st' h => (key st ds st' h).1, fun k hk st ds st' h => (key st ds st' h).2 k hk⟩
+
+theorem parse_render_FloatReg_embedded (pr : Profile) (m : FloatRegK F) (st : St F) :
+    parseElem pr m.render st = (specFloatRegK pr m st).bind fun r => .ok ([.floatReg r.1], r.2) := by
+  simp only [parseElem, FloatRegK.render, pNodeDatas]
+  simp [P.bind_def, pFloatRegK_render]
+  cases specFloatRegK pr m st <;> simp [pure_apply]
+
+/-- debug assertions on: a successful parse of the register keeps the store and has stored every
+embedded knife as its normal form -/
+theorem embedded_FloatReg_dev (pr : Profile) (hdev : pr.debugAsserts = true) (m : FloatRegK F) :
+    Good (F := F) pr m.render ∧ ∀ k, AddrK.knife k ∈ m.reg.addrs → Embeds (F := F) pr m.render k := by
+  have key : ∀ (st : St F) ds st', parseElem pr m.render st = .ok (ds, st') →
+      Keeps st st' ∧ ∀ k, AddrK.knife k ∈ m.reg.addrs → KnifeStored st' k := by
+    intro st ds st' h
+    rw [parse_render_FloatReg_embedded pr m st] at h
+    cases hs : specFloatRegK pr m st with
+    | ok r =>
+      rw [hs] at h
+      simp only [Res.bind_ok', Res.ok.injEq, Prod.mk.injEq] at h
+      obtain ⟨_, rfl⟩ := h
+      simp only [specFloatRegK] at hs
+      cases hr : specRegK pr m.reg (specAttr m.attr st).2 with
+      | ok rr =>
+        rw [hr] at hs
+        simp only [Res.bind_ok', Res.ok.injEq] at hs
+        obtain ⟨k1, f1⟩ := specRegK_dev pr hdev m.reg _ rr.1 rr.2 (by rw [hr])
+        have k0 : Keeps st (specAttr m.attr st).2 := (grows_specAttr m.attr (Grows.refl st)).keeps
+        have k2 : Keeps rr.2 r.2 := by
+          rw [← hs]
+          exact (grows_invalS _ _ (Grows.refl rr.2)).keeps
+        exact ⟨(k0.trans k1).trans k2, fun k hk => (f1 k hk).1.keeps k2⟩
+      | err x => rw [hr] at hs; cases hs
+      | panic => rw [hr] at hs; cases hs
+    | err x => rw [hs] at h; cases h
+    | panic => rw [hs] at h; cases h
+  exact ⟨fun st ds st' h => (key st ds st' h).1, fun k hk st ds st' h => (key st ds st' h).2 k hk⟩
+
+theorem parse_render_StringReg_embedded (pr : Profile) (m : PlainRegK F) (st : St F) :
+    parseElem pr (m.render cs!"StringReg") st = (specPlainRegK pr m st).bind fun r => .ok ([.stringReg r.1], r.2) := by
+  simp only [parseElem, PlainRegK.render, pNodeDatas]
+  simp [P.bind_def, pPlainRegK_render]
+  cases specPlainRegK pr m st <;> simp [pure_apply]
+
+/-- debug assertions on: a successful parse of the register keeps the store and has stored every
+embedded knife as its normal form -/
+theorem embedded_StringReg_dev (pr : Profile) (hdev : pr.debugAsserts = true) (m : PlainRegK F) :
+    Good (F := F) pr (m.render cs!"StringReg") ∧ ∀ k, AddrK.knife k ∈ m.reg.addrs → Embeds (F := F) pr (m.render cs!"StringReg") k := by
+  have key : ∀ (st : St F) ds st', parseElem pr (m.render cs!"StringReg") st = .ok (ds, st') →
+      Keeps st st' ∧ ∀ k, AddrK.knife k ∈ m.reg.addrs → KnifeStored st' k := by
+    intro st ds st' h
+    rw [parse_render_StringReg_embedded pr m st] at h
+    cases hs : specPlainRegK pr m st with
+    | ok r =>
+      rw [hs] at h
+      simp only [Res.bind_ok', Res.ok.injEq, Prod.mk.injEq] at h
+      obtain ⟨_, rfl⟩ := h
+      simp only [specPlainRegK] at hs
+      cases hr : specRegK pr m.reg (specAttr m.attr st).2 with
+      | ok rr =>
+        rw [hr] at hs
+        simp only [Res.bind_ok', Res.ok.injEq] at hs
+        obtain ⟨k1, f1⟩ := specRegK_dev pr hdev m.reg _ rr.1 rr.2 (by rw [hr])
+        have k0 : Keeps st (specAttr m.attr st).2 := (grows_specAttr m.attr (Grows.refl st)).keeps
+        have k2 : Keeps rr.2 r.2 := by
+          rw [← hs]
+          exact (grows_invalS _ _ (Grows.refl rr.2)).keeps
+        exact ⟨(k0.trans k1).trans k2, fun k hk => (f1 k hk).1.keeps k2⟩
+      | err x => rw [hr] at hs; cases hs
+      | panic => rw [hr] at hs; cases hs
+    | err x => rw [hs] at h; cases h
+    | panic => rw [hs] at h; cases h
+  exact ⟨fun st ds st' h => (key st ds st' h).1, fun k hk st ds st' h => (key st ds st' h).2 k hk⟩
+
+theorem parse_render_Register_embedded (pr : Profile) (m : PlainRegK F) (st : St F) :
+    parseElem pr (m.render cs!"Register") st = (specPlainRegK pr m st).bind fun r => .ok ([.register r.1], r.2) := by
+  simp only [parseElem, PlainRegK.render, pNodeDatas]
+  simp [P.bind_def, pPlainRegK_render]
+  cases specPlainRegK pr m st <;> simp [pure_apply]
+
+/-- debug assertions on: a successful parse of the register keeps the store and has stored every
+embedded knife as its normal form -/
+theorem embedded_Register_dev (pr : Profile) (hdev : pr.debugAsserts = true) (m : PlainRegK F) :
+    Good (F := F) pr (m.render cs!"Register") ∧ ∀ k, AddrK.knife k ∈ m.reg.addrs → Embeds (F := F) pr (m.render cs!"Register") k := by
+  have key : ∀ (st : St F) ds st', parseElem pr (m.render cs!"Register") st = .ok (ds, st') →
+      Keeps st st' ∧ ∀ k, AddrK.knife k ∈ m.reg.addrs → KnifeStored st' k := by
+    intro st ds st' h
+    rw [parse_render_Register_embedded pr m st] at h
+    cases hs : specPlainRegK pr m st with
+    | ok r =>
+      rw [hs] at h
+      simp only [Res.bind_ok', Res.ok.injEq, Prod.mk.injEq] at h
+      obtain ⟨_, rfl⟩ := h
+      simp only [specPlainRegK] at hs
+      cases hr : specRegK pr m.reg (specAttr m.attr st).2 with
+      | ok rr =>
+        rw [hr] at hs
+        simp only [Res.bind_ok', Res.ok.injEq] at hs
+        obtain ⟨k1, f1⟩ := specRegK_dev pr hdev m.reg _ rr.1 rr.2 (by rw [hr])
+        have k0 : Keeps st (specAttr m.attr st).2 := (grows_specAttr m.attr (Grows.refl st)).keeps
+        have k2 : Keeps rr.2 r.2 := by
+          rw [← hs]
+          exact (grows_invalS _ _ (Grows.refl rr.2)).keeps
+        exact ⟨(k0.trans k1).trans k2, fun k hk => (f1 k hk).1.keeps k2⟩
+      | err x => rw [hr] at hs; cases hs
+      | panic => rw [hr] at hs; cases hs
+    | err x => rw [hs] at h; cases h
+    | panic => rw [hs] at h; cases h
+  exact ⟨fun st ds st' h => (key st ds st' h).1, fun k hk st ds st' h => (key st ds st' h).2 k hk⟩
+
+/-! ### StructReg whose own address list embeds IntSwissKnife declarations -/
+
+/-- `StructReg` over the extended register base: one `MaskedIntReg` per entry merged with the
+parsed register base (which refers to the embedded knives by id); a stored-twice panic of an
+embedded knife propagates -/
+theorem parse_render_StructReg_embedded (pr : Profile) (m : StructK F) (st : St F) :
+    parseElem pr m.render st =
+      (specStructK pr m st).bind fun r => .ok (r.1.map .maskedIntReg, r.2) := by
+  simp only [parseElem, StructK.render, pNodeDatas]
+  simp [P.bind_def, pStructRegK_children, specStructK]
+  cases specRegK pr m.reg st <;> simp [intoMaskedIntRegs_eq, pure_apply]
+
+/-- it generalises `parse_render_StructReg`: without knives the normal form is `specStruct` -/
+theorem struct_embedded_knife_free (pr : Profile) (m : StructM) (st : St F) :
+    specStructK pr (m.toK (F := F)) st = .ok (specStruct m st) := by
+  simp [specStructK, StructM.toK, specRegK_toK, specStruct]
+
+/-- debug assertions on: a successful parse of the StructReg keeps the store and has stored every
+embedded knife as its normal form -/
+theorem embedded_StructReg_dev (pr : Profile) (hdev : pr.debugAsserts = true) (m : StructK F) :
+    Good (F := F) pr m.render ∧ ∀ k, AddrK.knife k ∈ m.reg.addrs → Embeds (F := F) pr m.render k := by
+  have key : ∀ (st : St F) ds st', parseElem pr m.render st = .ok (ds, st') →
+      Keeps st st' ∧ ∀ k, AddrK.knife k ∈ m.reg.addrs → KnifeStored st' k := by
+    intro st ds st' h
+    rw [parse_render_StructReg_embedded pr m st] at h
+    cases hs : specStructK pr m st with
+    | ok r =>
+      rw [hs] at h
+      simp only [Res.bind_ok', Res.ok.injEq, Prod.mk.injEq] at h
+      obtain ⟨_, rfl⟩ := h
+      simp only [specStructK] at hs
+      cases hr : specRegK pr m.reg st with
+      | ok rr =>
+        rw [hr] at hs
+        simp only [Res.bind_ok', Res.ok.injEq] at hs
+        obtain ⟨k1, f1⟩ := specRegK_dev pr hdev m.reg _ rr.1 rr.2 (by rw [hr])
+        have k2 : Keeps rr.2 r.2 := by
+          rw [← hs]
+          exact (grows_maskedOfEntries _ _ _
+            (grows_listS growsF_specEntry _ (Grows.refl rr.2))).keeps
+        exact ⟨k1.trans k2, fun k hk => (f1 k hk).1.keeps k2⟩
+      | err x => rw [hr] at hs; cases hs
+      | panic => rw [hr] at hs; cases hs
+    | err x => rw [hs] at h; cases h
+    | panic => rw [hs] at h; cases h
+  exact ⟨fun st ds st' h => (key st ds st' h).1, fun k hk st ds st' h => (key st ds st' h).2 k hk⟩
+
+/-- every merged node of a successfully parsed `StructK` carries the id of its entry's name,
+interned in a state the final one extends -/
+theorem specStructK_names (pr : Profile) (s : StructK F) (st : St F)
+    (r : List MaskedIntRegNode × St F) (h : specStructK pr s st = .ok r) :
+    ∀ n ∈ r.1, ∃ e ∈ s.entries, ∃ si : St F,
+      n.attr.id = (internS e.attr.name si).1 ∧ Grows (internS e.attr.name si).2 r.2 := by
+  intro n hn
+  simp only [specStructK] at h
+  cases hr : specRegK pr s.reg st with
+  | ok rr =>
+    rw [hr] at h
+    simp only [Res.bind_ok', Res.ok.injEq] at h
+    subst h
+    simp only [maskedOfEntries_fst, List.mem_map] at hn
+    obtain ⟨y, hy, rfl⟩ := hn
+    obtain ⟨e, he, si, _, h2, h3⟩ := listS_mem growsF_specEntry s.entries rr.2 y hy
+    refine ⟨e, he, si, by rw [h2]; rfl, ?_⟩
+    have h4 : Grows (internS e.attr.name si).2 (specEntry e si).2 :=
+      grows_listS growsF_internS _ (grows_specElem _ _ (Grows.refl _))
+    exact (h4.trans h3).trans (grows_maskedOfEntries _ _ _ (Grows.refl _))
+  | err x => rw [hr] at h; cases h
+  | panic => rw [hr] at h; cases h
+
+/-- a `StructReg` with embedded knives at any Group depth: every entry is found by name as a
+`MaskedIntReg` (and, by `retrievable_embedded_IntSwissKnife` with `embedded_StructReg_dev`, every
+embedded knife as an IntSwissKnife) -/
+theorem retrievable_StructReg_entries_embedded (pr : Profile) (hdev : pr.debugAsserts = true)
+    (es : List Elem) (s : StructK F) (hocc : Occurs (F := F) pr s.render es) (st stF : St F)
+    (h : topLevel pr es st = .ok stF) :
+    ∃ (s1 : St F) (r : List MaskedIntRegNode × St F), specStructK pr s s1 = .ok r ∧
+      ∀ n ∈ r.1, Stored stF n.attr.id (.maskedIntReg n) ∧
+        ∃ e ∈ s.entries, findName e.attr.name stF.names = some n.attr.id := by
+  obtain ⟨s1, de, sE, g1, g2, g3⟩ := occurs_stored pr hdev _ es hocc st stF h
+  rw [parse_render_StructReg_embedded pr s s1] at g1
+  cases hs : specStructK pr s s1 with
+  | ok r =>
+    rw [hs] at g1
+    simp only [Res.bind_ok', Res.ok.injEq, Prod.mk.injEq] at g1
+    obtain ⟨rfl, rfl⟩ := g1
+    refine ⟨s1, r, hs, fun n hn => ⟨g3 (.maskedIntReg n) (List.mem_map.mpr ⟨n, hn, rfl⟩), ?_⟩⟩
+    obtain ⟨e, he, si, e2, e3⟩ := specStructK_names pr s s1 r hs n hn
+    refine ⟨e, he, ?_⟩
+    rw [e2]
+    exact idByName_of_le e.attr.name si stF (St.le_trans e3.1 g2.1)
+  | err x => rw [hs] at g1; cases g1
+  | panic => rw [hs] at g1; cases g1
+
+/-- `retrievable_embedded_IntSwissKnife`: an IntSwissKnife embedded in the address list of a
+register that stands at ANY Group depth of a successfully parsed document is found in the FINAL
+store by its name, as an IntSwissKnife node, as its whole normal form. -/
+theorem retrievable_embedded_IntSwissKnife (pr : Profile) (hdev : pr.debugAsserts = true)
+    (es : List Elem) (e : Elem) (k : IntSwissKnifeM F) (hemb : Embeds (F := F) pr e k)
+    (hocc : Occurs (F := F) pr e es) (st stF : St F) (h : topLevel pr es st = .ok stF) :
+    ∃ s : St F, findName k.attr.name stF.names = some (specIntSwissKnife k s).1.attr.id ∧
+      Stored stF (specIntSwissKnife k s).1.attr.id (.intSwissKnife (specIntSwissKnife k s).1) := by
+  obtain ⟨s1, de, s2, g1, g2, _⟩ := occurs_stored pr hdev e es hocc st stF h
+  obtain ⟨s, f1, f2, f3⟩ := (hemb s1 de s2 g1).keeps g2
+  refine ⟨s, ?_, f1⟩
+  rw [f2]
+  exact idByName_of_le k.attr.name s stF f3
+
+/-- … the same amid noise: whole `parser::parse` of a document whose root and Groups carry arbitrary
+comments / processing instructions / whitespace between their children -/
+theorem retrievable_embedded_IntSwissKnife_amid_noise (pr : Profile) (hdev : pr.debugAsserts = true)
+    (attrs : List (Str × Str)) (cs : List Elem) (e : Elem) (k : IntSwissKnifeM F)
+    (hemb : Embeds (F := F) pr e k) (hocc : OccursN (F := F) pr e cs)
+    (rd : RegisterDescription) (stF : St F)
+    (h : parseDocument pr (.node cs!"RegisterDescription" attrs cs) = .ok (rd, stF)) :
+    ∃ s : St F, findName k.attr.name stF.names = some (specIntSwissKnife k s).1.attr.id ∧
+      Stored stF (specIntSwissKnife k s).1.attr.id (.intSwissKnife (specIntSwissKnife k s).1) := by
+  have htop := (document_ok_noise pr attrs cs rd stF h).2
+  obtain ⟨s1, de, s2, g1, g2, _⟩ := occursN_stored pr hdev e cs hocc St.empty stF htop
+  obtain ⟨s, f1, f2, f3⟩ := (hemb s1 de s2 g1).keeps g2
+  refine ⟨s, ?_, f1⟩
+  rw [f2]
+  exact idByName_of_le k.attr.name s stF f3
+
 /-! ## every declared immediate owns its value-store cell -/
 
 /-- `ValueStoreBuilder::store` as the parser uses it: the value store is a list of independent
@@ -1270,6 +2434,9 @@ theorem string_immediates_do_not_alias (m1 m2 : StringM) (s1 s2 : Str)
   refine ⟨_, _, by simp [specString, h1], by simp [specString, h2], f1, ?_, ?_⟩
   · simpa [specString, h2] using f2
   · simpa [specString, h2] using f3
+
+section Literals
+omit [TextFrag]
 
 /-! ## literals -/
 
@@ -1371,9 +2538,14 @@ theorem literals_float_specials :
   intro s h1 h2
   simp [convertToFloat, h1, h2]
 
+end Literals
+
 /-! ## non-vacuity: concrete, non-trivial declarations the theorems apply to -/
 
 section Examples
+
+/-- the examples use the plain text layout (one text node) -/
+local instance exFrag : TextFrag := TextFrag.single
 
 /-- a float-free instance of the abstract float / formula syntax for the examples -/
 local instance exLit : FloatLit Unit where
@@ -1481,6 +2653,159 @@ example : (topLevel (F := Unit) Profile.dev [exInteger.render, exStruct.render] 
     = true := by
   simp only [topLevel, parse_render_Integer, parse_render_StructReg, Res.bind_ok']
   rfl
+
+/-- `Occurs`: an Integer two Groups deep, next to a StructReg and a sibling Group -/
+example : Occurs (F := Unit) Profile.dev exInteger.render
+    [exStruct.render, .node cs!"Group" [] [.node cs!"Group" [(cs!"Comment", cs!"g")]
+      [exStruct.render, exInteger.render]]] := by
+  refine Occurs.inGroup [exStruct.render] [] _ _ ?_ ?_ ?_ ?_
+  · intro x hx
+    rcases hx with hx | hx
+    · simp only [List.mem_cons, List.not_mem_nil, or_false] at hx
+      subst hx; exact good_StructReg _ _
+    · simp at hx
+  · simp [AllElems]
+  · intro x hx
+    simp only [List.mem_cons, List.not_mem_nil, or_false] at hx
+    subst hx
+    refine good_Group _ _ _ (by simp [AllElems, StructM.render, IntegerM.render]) ?_
+    intro y hy
+    simp only [List.mem_cons, List.not_mem_nil, or_false] at hy
+    rcases hy with rfl | rfl
+    · exact good_StructReg _ _
+    · exact good_Integer _ _
+  · refine Occurs.inGroup [] [] _ _ (by intro x hx; simp at hx)
+      (by simp [AllElems, StructM.render, IntegerM.render]) ?_ ?_
+    · intro y hy
+      simp only [List.mem_cons, List.not_mem_nil, or_false] at hy
+      rcases hy with rfl | rfl
+      · exact good_StructReg _ _
+      · exact good_Integer _ _
+    · exact Occurs.here [exStruct.render] [] (by
+        intro x hx
+        rcases hx with hx | hx
+        · simp only [List.mem_cons, List.not_mem_nil, or_false] at hx
+          subst hx; exact good_StructReg _ _
+        · simp at hx)
+
+/-- `text_view_fragments`: four fragments, noise before, between and after (the k ≥ 3 case) -/
+example : FragNoise [.comment cs!"lead"]
+    [(cs!"Ga", [.pi]), (cs!"in", [.comment cs!"c", .pi]), (cs!"Ra", []), (cs!"w", [.comment cs!"t"])] := by
+  refine ⟨by intro x hx; simp at hx; subst hx; trivial, ?_⟩
+  intro fr hfr x hx
+  simp only [List.mem_cons, List.not_mem_nil, or_false] at hfr
+  rcases hfr with rfl | rfl | rfl | rfl <;> simp at hx <;>
+    first | (subst hx; trivial) | (rcases hx with rfl | rfl <;> trivial)
+example : fragText [(cs!"Ga", [Elem.pi]), (cs!"in", []), (cs!"Ra", []), (cs!"w", [])] = cs!"GainRaw" := rfl
+example : ∀ x ∈ [Elem.text cs!"\n  ", .comment cs!"c", .pi], IsNonElem x := by
+  intro x hx
+  simp only [List.mem_cons, List.not_mem_nil, or_false] at hx
+  rcases hx with rfl | rfl | rfl <;> trivial
+
+/-- an IntReg whose address list is `Address`, an embedded IntSwissKnife, `pIndex` -/
+def exKnife : IntSwissKnifeM Unit :=
+  { attr := exAttr cs!"AddrCalc", elem := exNoElem, streamable := none,
+    pVariables := [(cs!"SEL", cs!"Selector")], constants := [(cs!"BASE", exHex)],
+    expressions := [], formula := ⟨cs!"BASE + SEL * 4", rfl⟩, unit := none, representation := none }
+
+def exIntRegK : IntRegK Unit :=
+  { attr := exAttr cs!"Reg"
+    reg := { elem := exElem, streamable := none,
+             addrs := [.plain (.address exHex), .knife exKnife, .plain (.pIndex none cs!"Idx")],
+             length := .imm ⟨cs!"4", 4, by decide⟩, accessMode := none, pPort := cs!"Device",
+             cacheable := none, pollingTime := none, pInvalidators := [cs!"Inv"] }
+    sign := none, endianness := some .be, unit := none, representation := none, pSelected := [] }
+
+/-- a StructReg whose own address list embeds the knife, with two entries -/
+def exStructK : StructK Unit :=
+  { attrs := [], reg := exIntRegK.reg, endianness := none,
+    entries := [exEntry cs!"A" [cs!"I1"] (some .beginner), exEntry cs!"B" [] none] }
+
+example : Embeds (F := Unit) Profile.dev exStructK.render exKnife :=
+  (embedded_StructReg_dev Profile.dev rfl exStructK).2 exKnife (by simp [exStructK, exIntRegK])
+
+/-- … it parses (debug assertions on) into one MaskedIntReg per entry -/
+example : ((parseElem (F := Unit) Profile.dev exStructK.render St.empty).bind
+    fun r => .ok r.1.length) = .ok 2 := by
+  rw [parse_render_StructReg_embedded]; rfl
+
+example : AddrK.knife exKnife ∈ exIntRegK.reg.addrs := by simp [exIntRegK]
+
+/-- the hypotheses of `retrievable_embedded_IntSwissKnife` are satisfiable: the register embeds the
+knife, occurs in a Group, and the document parses with debug assertions on -/
+example : Embeds (F := Unit) Profile.dev exIntRegK.render exKnife :=
+  (embedded_IntReg_dev Profile.dev rfl exIntRegK).2 exKnife (by simp [exIntRegK])
+
+example : Occurs (F := Unit) Profile.dev exIntRegK.render
+    [exInteger.render, .node cs!"Group" [] [exIntRegK.render]] := by
+  refine Occurs.inGroup [exInteger.render] [] _ _ ?_ (by simp [AllElems, IntRegK.render]) ?_
+    (Occurs.here [] [] (by intro x hx; simp at hx))
+  · intro x hx
+    rcases hx with hx | hx
+    · simp only [List.mem_cons, List.not_mem_nil, or_false] at hx
+      subst hx; exact good_Integer _ _
+    · simp at hx
+  · intro x hx
+    simp only [List.mem_cons, List.not_mem_nil, or_false] at hx
+    subst hx
+    exact (embedded_IntReg_dev Profile.dev rfl exIntRegK).1
+
+example : (topLevel (F := Unit) Profile.dev
+    [exInteger.render, .node cs!"Group" [] [exIntRegK.render]] St.empty).isOk = true := by
+  have hg := group_flat_members (F := Unit) Profile.dev [] [exIntRegK.render]
+    (by simp [AllElems, IntRegK.render])
+  simp only [topLevel, parse_render_Integer, hg, parseElems, parse_render_IntReg_embedded,
+    Res.bind_ok']
+  rfl
+
+/-- noise between declarations: a root child list with a comment, whitespace text and a processing
+instruction around a StructReg and a Group whose own child list carries noise as well -/
+def exNoisy : List Elem :=
+  [.comment cs!"header", .text cs!"  ", exStruct.render, .pi, .text cs!" ",
+   .node cs!"Group" [] [.text cs!"   ", .comment cs!"inner", exInteger.render, .text cs!" "],
+   .text cs!" ", .comment cs!"trailer"]
+
+def exRootAttrs : List (Str × Str) :=
+  [(cs!"ModelName", cs!"M"), (cs!"VendorName", cs!"V"), (cs!"StandardNameSpace", cs!"None"),
+   (cs!"SchemaMajorVersion", cs!"1"), (cs!"SchemaMinorVersion", cs!"1"),
+   (cs!"SchemaSubMinorVersion", cs!"0"), (cs!"MajorVersion", cs!"1"), (cs!"MinorVersion", cs!"2"),
+   (cs!"SubMinorVersion", cs!"3"), (cs!"ProductGuid", cs!"p"), (cs!"VersionGuid", cs!"v")]
+
+example : elemsOf exNoisy =
+    [exStruct.render, .node cs!"Group" []
+      [.text cs!"   ", .comment cs!"inner", exInteger.render, .text cs!" "]] := rfl
+
+/-- the hypotheses of `retrievable_amid_noise` are satisfiable: the Integer occurs in the noisy
+Group of the noisy root … -/
+example : OccursN (F := Unit) Profile.dev exInteger.render exNoisy := by
+  refine OccursN.inGroup [exStruct.render] [] [] _ rfl ?_ ?_
+    (OccursN.here [] [] rfl (by intro x hx; simp at hx))
+  · intro x hx
+    rcases hx with hx | hx
+    · simp only [List.mem_cons, List.not_mem_nil, or_false] at hx
+      subst hx; exact good_StructReg _ _
+    · simp at hx
+  · intro x hx
+    have hx' : x ∈ [exInteger.render] := hx
+    simp only [List.mem_cons, List.not_mem_nil, or_false] at hx'
+    subst hx'; exact good_Integer _ _
+
+/-- … and the whole noisy document parses with debug assertions on -/
+example : (parseDocument (F := Unit) Profile.dev
+    (.node cs!"RegisterDescription" exRootAttrs exNoisy)).isOk = true := by
+  have hr : (pRegisterDescription exRootAttrs).isOk = true := by rfl
+  rw [document_noise]
+  cases hrd : pRegisterDescription exRootAttrs with
+  | ok rd =>
+    have he : elemsOf exNoisy = [exStruct.render, .node cs!"Group" []
+      [.text cs!"   ", .comment cs!"inner", exInteger.render, .text cs!" "]] := rfl
+    have hi : elemsOf [Elem.text cs!"   ", .comment cs!"inner", exInteger.render, .text cs!" "] =
+      [exInteger.render] := rfl
+    simp only [he, Res.bind_ok', topLevel, parse_render_StructReg, group_flat_noise, hi, parseElems,
+      parse_render_Integer]
+    rfl
+  | err x => rw [hrd] at hr; cases hr
+  | panic => rw [hrd] at hr; cases hr
 
 /-- `group_flat`: members are element nodes -/
 example : AllElems [exInteger.render, exStruct.render] := by simp [AllElems, IntegerM.render, StructM.render]
